@@ -51,6 +51,10 @@ func RunC01(ctx *core.Ctx) {
 				if r.Intn(3) == 0 {
 					prof.RunLen = 70
 				}
+				if n <= 3 && n > 0 && r.Intn(3) == 0 {
+					prof.LongLists = true
+					prof.SmallDomain = false
+				}
 				rows := e.NewRows(n)
 				gen.FillRows(r, rows, prof)
 				cfg := gen.RandWriterCfg(r)
